@@ -203,7 +203,7 @@ func ruleTLWFrame(r *Run, p *Prog) {
 				return
 			}
 			fa, ok := st.Addr.(*ssa.FieldAddr)
-			if !ok || !typeIs(fa.X.Type(), modPath, "TriggerLevelWriter") || fieldVar(fa).Name() != "triggered" {
+			if !ok || !typeIs(fa.X.Type(), modPath, "TriggerLevelWriter") || fname(fieldVar(fa)) != "triggered" {
 				return
 			}
 			n++
@@ -222,7 +222,7 @@ func ruleTLWFrame(r *Run, p *Prog) {
 				return
 			}
 			fv, base := loadedField(c.Call.Args[0])
-			if fv == nil || fv.Name() != "buf" || !typeIs(base.Type(), modPath, "TriggerLevelWriter") {
+			if fv == nil || fname(fv) != "buf" || !typeIs(base.Type(), modPath, "TriggerLevelWriter") {
 				return
 			}
 			r.Ob("TLW-FRAME", FnName(f)+"/reads-buf", p.Pos(c.Pos()), f == trig, true, tern(f == trig, "held lines are read only by trigger()", "held lines are read outside trigger(): they can reach the destination without the trigger firing"))
